@@ -48,8 +48,11 @@ WellFormedReq(r) ==
     /\ (r.nchwIn = "dup_index" => r.nin >= 1) /\ (r.nchwOut = "dup_index" => r.nout >= 1)
 
 \* requests the user cannot expect to succeed: contradictory names, invalid layout selection
+\* (an input and an output may share a name exactly when they are the same value: the callable
+\*  returns that input unchanged)
+NameClash(r) == r.inNames = "collide_output" /\ ~(r.outKind = "alias_input" /\ r.nchwIn # "first")
 Contradictory(r) ==
-    \/ r.inNames \in {"dup", "wrong_len", "collide_param", "collide_output"}
+    \/ r.inNames \in {"dup", "wrong_len", "collide_param"} \/ NameClash(r)
     \/ r.outNames \in {"dup", "wrong_len", "collide_param"}
     \/ r.nchwIn \in {"bad_index", "bad_rank", "dup_index"}
     \/ r.nchwOut \in {"bad_index", "bad_rank", "dup_index"}
@@ -139,9 +142,9 @@ MaterializeParams ==   \* a referenced runtime parameter becomes a named graph i
 
 Rename ==
     /\ stage = "rename"
-    /\ IF req.inNames = "collide_output"
+    /\ IF NameClash(req)
          THEN Raise /\ UNCHANGED <<req, ins, outs, passIdx, aborted, valid, equiv>>
-         ELSE /\ ins' = [k \in 1..Len(ins) |-> IF ins[k].kind = "pos" /\ req.inNames = "ok"
+         ELSE /\ ins' = [k \in 1..Len(ins) |-> IF ins[k].kind = "pos" /\ req.inNames \in {"ok", "collide_output"}
                                                  THEN [ins[k] EXCEPT !.name = "custom"] ELSE ins[k]]
               /\ outs' = [k \in 1..Len(outs) |-> IF req.outNames = "ok" THEN [outs[k] EXCEPT !.name = "custom"] ELSE outs[k]]
               /\ stage' = "returned" /\ result' = "model"
@@ -164,7 +167,7 @@ OutputsPerLeaf == stage \in {"optimize", "post", "materialize", "rename", "retur
                      (Len(outs) = req.nout /\ \A j \in 1..req.nout : outs[j].leaf = j - 1)
 \* C05: names applied exactly
 NamesApplied == stage = "returned" =>
-                   /\ (req.inNames = "ok" => \A k \in 1..req.nin : ins[k].name = "custom")
+                   /\ (req.inNames \in {"ok", "collide_output"} => \A k \in 1..req.nin : ins[k].name = "custom")
                    /\ (req.outNames = "ok" => \A j \in 1..req.nout : outs[j].name = "custom")
 \* C05 / C12: a request is rejected iff it is contradictory or the program is faulty
 RejectIffBad == stage \in {"returned", "raised"} =>
